@@ -114,6 +114,11 @@ def run(ctx):
         e.pop("MTBL_READER_MADVISE_RANDOM", None)
         if venvs[i] is not None:
             e["MTBL_READER_MADVISE_RANDOM"] = venvs[i]
+        # every other image is verified as the second file of one command line (an intact file first): the verdict on a file must
+        # not depend on its position; the tool's exit status is then the status of the whole command line
+        if i % 2 == 1 and i > 0:
+            p = subprocess.run([tools["verify"], jobs[0][0], job[0]], stdout=subprocess.PIPE, stderr=subprocess.PIPE, text=True, env=e, timeout=120)
+            return ((job[0] + ": OK") in p.stdout, p.returncode)
         p = subprocess.run([tools["verify"], job[0]], stdout=subprocess.PIPE, stderr=subprocess.PIPE, text=True, env=e, timeout=120)
         return (": OK" in p.stdout, p.returncode)
     with ThreadPoolExecutor(max_workers=16) as ex:
